@@ -20,7 +20,9 @@ EXTENDS IntMath, Sequences, FiniteSets, TLC
 
 CONSTANTS FixFinal,     \* final flag honoured only after the last chunk of a partition was appended
           FixSpillMin,  \* opportunistic spill never writes less than the writer's minimum
-          FixLeftId     \* header / left part uses the writer's min_part instead of the literal 1
+          FixLeftId,    \* header / left part uses the writer's min_part instead of the literal 1
+          FixEmptyMerge \* merging two chunks that have observed nothing (partitions without any chunk) is allowed: the constructor only insists on
+                        \* an observed list when it is handed NON-EMPTY data (as found it insisted for any data object: AssertionError)
 
 OK == "ok"
 Len2(r) == r[2] - r[1]
@@ -99,6 +101,7 @@ Merge(cfg, lhs, rhs, hasW) ==
   IF ~Started(rhs) THEN
      IF Len2(rhs.l) # 0 THEN Res(lhs, <<>>, "assert:merge.rhs_left")
      ELSE IF ~Contig(lhs.d, rhs.d) THEN Res(lhs, <<>>, "model:non_contiguous")
+     ELSE IF ~FixEmptyMerge /\ lhs.obs \o rhs.obs = <<>> THEN Res(lhs, <<>>, "assert:ctor.data_without_observed")
      ELSE Res([pid |-> lhs.pid, cr |-> lhs.cr + rhs.cr, d |-> Cat(lhs.d, rhs.d), l |-> lhs.l,
                parts |-> lhs.parts, obs |-> lhs.obs \o rhs.obs, final |-> rhs.final, keep |-> lhs.keep], <<>>, OK)
   ELSE LET r == FlushRhs(cfg, lhs, hasW, rhs.l) IN
